@@ -30,7 +30,11 @@ func (s *State) evalUnquoteCalls(quoted ast.Node) ast.Node {
 			return node
 		}
 		unquoted := s.evalInternal(call.Parameters[0])
-		return convertObjectToASTNode(unquoted)
+		converted := convertObjectToASTNode(unquoted)
+		if converted == nil { // not convertible: an error node rather than a nil hole in the tree.
+			return s.MacroErrorf("unquote of unsupported %s", unquoted.Type().String())
+		}
+		return converted
 	})
 }
 
@@ -51,6 +55,14 @@ func convertObjectToASTNode(obj object.Object) ast.Node {
 			t = token.FALSET
 		}
 		return ast.Boolean{Base: ast.Base{Token: t}, Val: obj.Value}
+	case object.Float:
+		r := ast.FloatLiteral{Val: obj.Value}
+		r.Token = token.Intern(token.FLOAT, strconv.FormatFloat(obj.Value, 'g', -1, 64))
+		return &r
+	case object.String:
+		r := ast.StringLiteral{}
+		r.Token = token.Intern(token.STRING, obj.Value)
+		return &r
 	case object.Quote:
 		return obj.Node
 	default:
